@@ -112,11 +112,8 @@ class Prov:
         """Like expand(), but a name with several reaching definitions is
         resolved to the *same* definition everywhere inside one variant
         (path-consistent variants instead of the free product)."""
-        self._multi = {}
-        self._choice = None
-        self.expand(fn, sc, expr, use_node, 0, stop)      # discovery pass
-        multi = dict(self._multi)
-        self._multi = None
+        multi = {}
+        self._discover(fn, sc, expr, use_node, stop, multi, set())
         names = sorted(multi)
         combos = [{}]
         for nm in names:
@@ -134,6 +131,29 @@ class Prov:
 
     _multi = None
     _choice = None
+
+    def _discover(self, fn, sc, expr, use_node, stop, multi, seen):
+        """Names with several reaching definitions anywhere in the expansion of expr."""
+        local = self.defs(fn, sc)
+        for n in walk_no_nested(expr):
+            if not (isinstance(n, ast.Name) and isinstance(n.ctx, ast.Load)):
+                continue
+            nm = n.id
+            if nm in stop or nm not in local:
+                continue
+            key = (nm, use_node.id)
+            if key in seen:
+                continue
+            seen.add(key)
+            rds = self.reaching(fn, sc, nm, use_node)
+            real = [d for d in rds if not (d.cnode is use_node and d.kind == "assign")]
+            if len(real) > 1 and not any(d.kind == "aug" for d in real):
+                multi.setdefault(nm, set()).update(d.cnode.id for d in real)
+            for d in rds:
+                if d.kind == "aug":
+                    self._discover(fn, sc, d.node.value, d.cnode, stop, multi, seen)
+                elif d.value is not None and d.kind != "param":
+                    self._discover(fn, sc, d.value, d.cnode, stop, multi, seen)
 
     def expand(self, fn, sc, expr, use_node, depth=0, stop=()):
         """Set of normalised strings: `expr` with local names replaced by the
@@ -176,9 +196,10 @@ class Prov:
                             pv.add(nm)
                         else:
                             pv |= {f"({x})" for x in self.expand(fn, sc, r.value, r.cnode, depth + 1, stop)}
+                    looped = self.A.cfg(fn, sc).in_loop(d.cnode)
                     for p in pv or {nm}:
                         for v in vals:
-                            alts.add(f"({p} {sym} REPEAT({v}))")
+                            alts.add(f"({p} {sym} REPEAT({v}))" if looped else f"({p} {sym} {v})")
                 elif d.kind == "except" or d.value is None:
                     alts.add(nm)
                 else:
